@@ -268,8 +268,27 @@ func GenActionsR(nReplicas, nRemotes, minLen, maxLen, nFiles int) *rapid.Generat
 			Action{Kind: "pull", R: x, Rem: 1}, Action{Kind: "pull", R: y, Rem: 0})
 		return out
 	})
+	// stalemerge: replica x is ahead on a bug (several commits), y publishes one concurrent commit, x restarts
+	// with stale clock files and pulls through the packaged API: the merge commit must still get a time above
+	// both branches
+	stalemerge := rapid.Custom(func(t *rapid.T) []Action {
+		x := rapid.IntRange(0, nReplicas-1).Draw(t, "x")
+		y := (x + rapid.IntRange(1, nReplicas-1).Draw(t, "dy")) % nReplicas
+		b := rapid.IntRange(0, 3).Draw(t, "bug")
+		edit := func(r int) Action {
+			return Action{Kind: "edit", R: r, Bug: b, Global: true, Ops: []OpSpec{GenOpSpec(nReplicas, nFiles).Draw(t, "op")}}
+		}
+		out := []Action{{Kind: "pull", R: x}, {Kind: "push", R: x}, {Kind: "pull", R: y}, edit(y), {Kind: "push", R: y}}
+		for k := rapid.IntRange(2, 4).Draw(t, "lead"); k > 0; k-- {
+			out = append(out, edit(x))
+		}
+		return append(out, Action{Kind: "staleclock", R: x, N: rapid.IntRange(0, 3).Draw(t, "n")}, Action{Kind: "pullapi", R: x})
+	})
 	return rapid.Custom(func(t *rapid.T) []Action {
 		var acts []Action
+		if rapid.IntRange(0, 3).Draw(t, "withStaleMerge") == 0 {
+			acts = append(acts, stalemerge.Draw(t, "stalemerge")...)
+		}
 		if nRemotes > 1 {
 			n := rapid.IntRange(minLen, maxLen).Draw(t, "n")
 			for len(acts) < n {
@@ -280,7 +299,7 @@ func GenActionsR(nReplicas, nRemotes, minLen, maxLen, nFiles int) *rapid.Generat
 				}
 			}
 		} else {
-			acts = rapid.SliceOfN(one, minLen, maxLen).Draw(t, "actions")
+			acts = append(acts, rapid.SliceOfN(one, minLen, maxLen).Draw(t, "actions")...)
 		}
 		// every world starts with a bug that is shared, so that edits have something to diverge on
 		first := Action{Kind: "new", R: 0, Ops: []OpSpec{GenCreateSpec(nReplicas, nFiles).Draw(t, "create0")}}
